@@ -65,13 +65,15 @@ namespace pika {
 
         std::unique_lock<mutex_type> l(mtx_);
 
+#if defined(PIKA_VERIF)
         if (owner_id_ != threads::detail::invalid_thread_id)
         {
-#if defined(PIKA_VERIF)
             PIKA_VERIF_POINT(605, this, 0, 0);    // try_lock(): owned -> false
-#endif
             return false;
         }
+#else
+        if (owner_id_ != threads::detail::invalid_thread_id) { return false; }
+#endif
 
         threads::detail::thread_id_type self_id = pika::threads::detail::get_self_id();
         util::register_lock(this);
